@@ -204,6 +204,16 @@ func (h *Handler) HandleOpenFile(ctx *Context, path string) (fs.FileInfo, error)
 		sectorSize, err := determineSectorSize(f)
 		if err != nil {
 			log.WarnContext(ctx, "Determine sector size failed", logutil.ErrorAttr(err))
+
+			// with a guessed sector size sector reads would silently return bytes of wrong places
+			if err := f.Close(); err != nil {
+				log.WarnContext(ctx, "Close of just opened r/o file failed", logutil.ErrorAttr(err))
+			}
+
+			ctx.State.ROFile = nil
+			ctx.State.CDSectorSize = 0
+
+			return nil, err
 		}
 		if sectorSize > 0 && sectorSize != ctx.State.CDSectorSize {
 			log.InfoContext(ctx, "Sector size determined", slog.Int("size", sectorSize))
